@@ -146,13 +146,17 @@ def run(ctx):
         ds = [d for d in defs.get(name, []) if not (isinstance(d, ast.Constant) and d.value is None)]
         ctx.need(ds, "no definition of the returned part `{}`".format(name))
         for d in ds:
-            if isinstance(d, ast.Call) and index.callee(f.mod, d, f) == "builtins.map":
-                # the (current, original) pair is built by mapping one slicing lambda over two triples
-                lam = d.args[0] if d.args else None
-                ok = isinstance(lam, ast.Lambda) and isinstance(lam.body, ast.Subscript) and isinstance(lam.body.slice, ast.Call) and norm(lam.body.slice.func) == "slice"
+            from .c02 import elementwise
+
+            ew = elementwise(d) if isinstance(d, (ast.Call, ast.GeneratorExp, ast.ListComp)) else None
+            if ew is not None and isinstance(ew[0], ast.Tuple) and not ew[3]:
+                # the (current, original) pair is built by applying one slicing expression to two (string, start, end)
+                # triples — map(lambda t: t[0][slice(..)], triples) or the same as a generator / comprehension
+                body = ew[2]
+                ok = isinstance(body, ast.Subscript) and isinstance(body.slice, ast.Call) and norm(body.slice.func) == "slice"
                 trip = None
-                if ok and len(d.args) == 2 and isinstance(d.args[1], ast.Tuple):
-                    for t in d.args[1].elts:
+                if ok:
+                    for t in ew[0].elts:
                         if isinstance(t, ast.Tuple) and len(t.elts) == 3 and "current" in norm(t.elts[0]):
                             trip = [norm(x) for x in t.elts]
                 good = ok and trip is not None and bounds.get(trip[1], (None, None))[1] == trip[0] and bounds.get(trip[2], (None, None))[1] == trip[0]
